@@ -26,6 +26,9 @@ pub enum Fate {
     /// reading early (match limit / -l / -q); the child is certainly blocked
     /// in write() when the pipe is closed and dies from SIGPIPE.
     Abandoned { noisy: bool, ignore_sigpipe: bool },
+    /// Output with a match, then a NUL byte, then filler: ripgrep's binary
+    /// detection (traversed file, default mode) stops reading at the NUL.
+    AbandonedByBinary,
 }
 
 #[derive(Clone, Debug)]
@@ -116,11 +119,26 @@ pub fn gen_workload(sub: u64) -> Workload {
                 6..=7 => Fate::FailAfterOutput([1, 2, 127, 255][rng.below(4)]),
                 8..=9 => Fate::FailBeforeOutput([1, 2, 127, 255][rng.below(4)]),
                 10 => Fate::AbortAfterOutput,
+                11 if kind != "zreal" => Fate::AbandonedByBinary,
                 _ => Fate::Clean,
             }
         };
-        let abandoned = matches!(fate, Fate::Abandoned { .. });
-        files.push(FileScript { path: format!("{dir}file{i}.{ext}"), output: gen_output(&mut rng, abandoned), fate, through_child });
+        let abandoned = matches!(fate, Fate::Abandoned { .. } | Fate::AbandonedByBinary);
+        let mut output = gen_output(&mut rng, abandoned);
+        if fate == Fate::AbandonedByBinary {
+            // Which lines before a NUL are still reported depends on where the
+            // reads fall (C14 allows that), and pipe reads depend on timing. The
+            // match is therefore kept more than a pipe capacity plus a roll
+            // buffer away from the NUL: it is always searched in an earlier
+            // buffer than the one in which the NUL arrives.
+            output = b"needle foo at the top\n".to_vec();
+            for _ in 0..(5000 + rng.below(2000)) {
+                output.extend_from_slice(b"nothing to see on this line, move along\n");
+            }
+            output.push(0);
+            output.extend_from_slice(b"foo after the NUL\n");
+        }
+        files.push(FileScript { path: format!("{dir}file{i}.{ext}"), output, fate, through_child });
     }
     Workload { kind, files, flags, early_stop: early }
 }
@@ -135,6 +153,7 @@ fn script_for(f: &FileScript, shadow: &Path) -> String {
         Fate::FailAfterOutput(c) => format!("cat:{sp},exit:{c}"),
         Fate::FailBeforeOutput(c) => format!("exit:{c}"),
         Fate::AbortAfterOutput => format!("cat:{sp},abort"),
+        Fate::AbandonedByBinary => format!("cat:{sp},fill:1600000"),
         Fate::Abandoned { noisy, ignore_sigpipe } => format!("{}{}cat:{sp},fill:1600000,exit:{}", if *ignore_sigpipe { "ignore_sigpipe," } else { "" }, if *noisy { "err:200," } else { "" }, if *ignore_sigpipe { 1 } else { 0 }),
     }
 }
@@ -264,6 +283,7 @@ pub fn run_workload(sub: u64, acc: &mut Acc, ctx: &Ctx, _thorough: bool) {
             Fate::FailAfterOutput(_) => "exit-nonzero-after-output".into(),
             Fate::FailBeforeOutput(_) => "exit-nonzero-before-output".into(),
             Fate::AbortAfterOutput => "SIGABRT-after-output".into(),
+            Fate::AbandonedByBinary => "abandoned-by-binary-detection".into(),
             Fate::Abandoned { noisy, ignore_sigpipe } => format!("abandoned-by-early-stop{}{}", if *noisy { "+stderr-noise" } else { "" }, if *ignore_sigpipe { "+ignores-SIGPIPE" } else { "" }),
         }));
     }
@@ -319,7 +339,7 @@ pub fn run_workload(sub: u64, acc: &mut Acc, ctx: &Ctx, _thorough: bool) {
                 }
             }
             Fate::FailAfterOutput(_) | Fate::FailBeforeOutput(_) | Fate::AbortAfterOutput => must_err.push(&f.path),
-            Fate::Abandoned { .. } => must_not_err.push(&f.path),
+            Fate::Abandoned { .. } | Fate::AbandonedByBinary => must_not_err.push(&f.path),
         }
     }
     // with an early stop (-q, -l quit the whole run / stop reading a file), files after the stop are never started
@@ -362,7 +382,7 @@ pub fn run_workload(sub: u64, acc: &mut Acc, ctx: &Ctx, _thorough: bool) {
             let f = files.iter().find(|f| &f.path == p).unwrap();
             let class = match &f.fate {
                 Fate::Abandoned { noisy: true, .. } => "early-stop-reported-as-error:child-wrote-to-stderr".to_string(),
-                Fate::Abandoned { .. } => "early-stop-reported-as-error".to_string(),
+                Fate::Abandoned { .. } | Fate::AbandonedByBinary => "early-stop-reported-as-error".to_string(),
                 _ => format!("spurious-error:{}", w.kind),
             };
             acc.violation("C18", &class, format!("w/{p} ({:?}) is reported as an error: {:?}", f.fate, show(&got.stderr)), sub, body(sub, &w, &spec, &shadow_out, &got, json!({"file": p})));
